@@ -64,6 +64,8 @@ Proof.
   destruct (mget b (c_empty c)) as [n|] eqn:He; [|cbn [fst snd]; auto].
   destruct (Nat.leb (rn_count n (c_bbn c)) 1) eqn:Ec; [cbn [fst snd]; auto|].
   apply PeanoNat.Nat.leb_gt in Ec.
+  destruct (knode_for w c n).
+  2:{ cbn [fst snd]. split; [eapply Binv_ext; [| | | |exact HB]; reflexivity|]. left. split; reflexivity. }
   pose proof (mark_empty_sb (w_now w) grace b c) as Hs.
   destruct (mark_empty (w_now w) grace b c) as [c1 ok]. simpl in Hs.
   pose proof (Binv_same _ _ Hs HB) as HB1. destruct Hs as [Sb _].
